@@ -530,7 +530,8 @@ def run_dispatch(ctx, cases, runner, fresh=False):
             c.isfn[name] = rs[k].get("val") == "Fn"
             if rs[k].get("status") in ("panic", "hang", "abort"):
                 c.crashed.append((name, rs[k].get("status")))
-        c.setup_ok = rs is not None and all(x.get("status") == "ok" for x in rs[:len(c.bindings)])
+        c.hung = rs is None and r.get("status") in ("hang", "abort", "badjson")   # too slow as a whole program: skipped, counted
+        c.setup_ok = c.hung or rs is not None and all(x.get("status") == "ok" for x in rs[:len(c.bindings)])
         c.model = {name: (next(mres) if mres else None) for name in c.forms}
         # reference program from the model's normal form of the plain call form
         c.ref_src, c.ref = None, None
@@ -580,6 +581,8 @@ def run_dispatch(ctx, cases, runner, fresh=False):
 def judge(c):
     """-> list of (kind, detail). kind: 'property' (forms disagree), 'correspondence' (forms agree, model's reference differs), 'model'"""
     out = []
+    if c.hung:
+        return []
     if not c.setup_ok:
         return [("setup", "a binding failed to evaluate: %r" % (c.raw,))]
     base = c.impl["call"]
@@ -733,6 +736,7 @@ def run(ctx):
                      "cases_with_value": len(nontrivial), "cases_all_fail": sum(1 for c in cases if runner is not None and c.impl.get("call") == "fail"),
                      "cases_with_model_reference": sum(1 for c in cases if getattr(c, "ref", None) is not None),
                      "function_valued_results_probed": sum(1 for c in cases if runner is not None and any(c.isfn.values())),
+                     "cases_skipped_too_slow": sum(1 for c in cases if getattr(c, "hung", False)),
                      "suspicious": nbad, "wall_s": round(t_disp, 1)},
     })
     ctx.assumptions += [
